@@ -114,3 +114,4 @@ class DAGNodeStorage:
         for node_id in node_ids:
             self.hide_processed_node(node_id)
             self.hide_node_result(node_id)
+            self.switch_results.hide(node_id)
